@@ -384,7 +384,7 @@ pub fn run_c05(ctx: &mut Ctx) {
     ctx.required_classes.push("exact multiple of the block size".into());
 }
 pub fn run_c07(ctx: &mut Ctx) {
-    run_conformance(ctx, "C07", Family::Groestl, 25_000, 500_000);
+    run_conformance(ctx, "C07", Family::Groestl, 40_000, 500_000);
     ctx.required_classes.push("Groestl extra padding block (<= 8 bytes left)".into());
     // block counts that need a second / third counter byte
     let specs = by_family(Family::Groestl);
@@ -460,7 +460,7 @@ pub fn f8_check(c: &F8Case, info: &mut CaseInfo) -> Result<(), Fail> {
 }
 
 pub fn run_c06(ctx: &mut Ctx) {
-    run_conformance(ctx, "C06", Family::Jh, 12_000, 300_000);
+    run_conformance(ctx, "C06", Family::Jh, 20_000, 300_000);
     ctx.required_classes.push("JH two padding blocks".into());
     let strat = (gen::bytes_n(128), gen::bytes_n(64), 1u8..4).prop_map(|(state, block, blocks)| F8Case { state, block, blocks });
     let n = ctx.count(20_000, 500_000);
@@ -929,7 +929,7 @@ pub fn c17_specs() -> Vec<HashSpec> {
 
 pub fn run_c17(ctx: &mut Ctx) {
     let specs = c17_specs();
-    let n = ctx.count(30_000, 1_000_000);
+    let n = ctx.count(100_000, 1_000_000);
     let s2 = specs.clone();
     ctx.run("counter-at-boundary", n, c17_strategy(&specs), |c, i| c17_check(&s2, c, i));
     ctx.required_classes.push("absorbed data crosses the targeted boundary".into());
